@@ -594,9 +594,26 @@ impl Reverse {
     order2.sort_by_key(|&i| crate::model::mix(i as u64 ^ env.seed.wrapping_mul(0xD1B54A32D192ED03) ^ 0x5bd1));
     order2.truncate(kept.len() / 2 + 1);
     const NT: usize = 8;
+    let stop = std::sync::atomic::AtomicBool::new(false);
     let results: Vec<Option<Out>> = std::thread::scope(|sc| {
       let pass = &pass;
       let order2 = &order2;
+      // background noise: 4 threads keep asking the library narrow questions about other dates in tight loops, so that
+      // any process-wide "last request" state is being overwritten all the time while the cases are evaluated
+      if let Some(noise) = NOISE.get() {
+        for t in 0..4u64 {
+          let stop = &stop;
+          let noise = *noise;
+          let seed = env.seed;
+          sc.spawn(move || {
+            let mut n: u64 = crate::model::mix(seed ^ (t + 1));
+            while !stop.load(std::sync::atomic::Ordering::Relaxed) {
+              noise(n);
+              n = n.wrapping_add(0x9E3779B97F4A7C15);
+            }
+          });
+        }
+      }
       let hs: Vec<_> = (0..NT)
         .map(|t| {
           sc.spawn(move || {
@@ -605,7 +622,9 @@ impl Reverse {
           })
         })
         .collect();
-      hs.into_iter().map(|h| h.join().ok()).collect()
+      let r = hs.into_iter().map(|h| h.join().ok()).collect();
+      stop.store(true, std::sync::atomic::Ordering::Relaxed);
+      r
     });
     for r in results {
       match r {
@@ -615,6 +634,9 @@ impl Reverse {
     }
   }
 }
+
+/// Narrow library query used as background noise by the concurrent pass (registered by props::mod at start-up).
+pub static NOISE: std::sync::OnceLock<fn(u64)> = std::sync::OnceLock::new();
 
 /// Strided walks: proptest generates (start, stride, length); the cases `make(start + k*stride)` for k = 0..length are
 /// evaluated in that order on one fresh thread. This is how callers iterate (every day, every week, every 30 days,
